@@ -136,6 +136,53 @@ func checkC15(c *Ctx, r *Report) {
 			r.add("C15.a", "fieldflow", rf+":same-verb", "only endpoints of the entry's verb are candidates", []string{rf}, sites, viol)
 		}
 	}
+	// patternsConflict: two segment lists of equal length overlap unless some position holds two
+	// DIFFERENT LITERALS. It answers "no overlap" only there: under a length mismatch, or where
+	// both segments of the position are known not to be parameters (a parameter overlaps with
+	// any literal and with a parameter of any other name).
+	if fi := need(c, r, "C15.a", pc); fi != nil {
+		viol := ""
+		var sites []string
+		nFalse := 0
+		for _, ex := range exitsOf(fi.SSA) {
+			if ex.Ret == nil || len(ex.Ret.Results) != 1 {
+				continue
+			}
+			for _, lv := range phiLeaves(unspill(ex.Ret.Results[0], ex.Block)) {
+				k, ok := lv.(*ssa.Const)
+				if !ok || !isBoolConst(k, false) {
+					continue
+				}
+				nFalse++
+				sites = append(sites, w.pos(retPos(ex)))
+				blk := ex.Block
+				if ex.Pred != nil {
+					blk = ex.Pred
+				}
+				lenMismatch, notParam := false, map[string]bool{}
+				for _, f := range dominatingFacts(blk) {
+					cnd, pol := unwrapNot(f.Cond, f.Pol)
+					if bo, isB := cnd.(*ssa.BinOp); isB && sliceOf(cnd).Calls["builtin.len"] && ((bo.Op == token.NEQ && pol) || (bo.Op == token.EQL && !pol)) {
+						lenMismatch = true
+					}
+					if cl, isCall := cnd.(*ssa.Call); isCall && !pol && calleeName(cl) == pkgPaths+".isParamSegment" && len(cl.Call.Args) == 1 {
+						// which list the segment is taken from
+						for p := range sliceOf(cl.Call.Args[0]).Params {
+							notParam[p.Name()+fmt.Sprint(p.Pos())] = true
+						}
+					}
+				}
+				if !lenMismatch && len(notParam) < 2 {
+					viol = fmt.Sprintf("%s: patternsConflict answers \"no overlap\" at a position where it is not established that BOTH segments are literals (isParamSegment known false for %d of the 2 lists): a parameter facing a literal, or a parameter of another name, then hides a real overlap", w.pos(retPos(ex)), len(notParam))
+				}
+			}
+		}
+		if nFalse == 0 {
+			viol = "patternsConflict never answers false"
+		}
+		o := r.add("C15.a", "guardedby", pc+":false-only-for-two-literals", "\"no overlap\" is answered only under a length mismatch or for two different literals at one position", []string{pc}, sites, viol)
+		o.NonTrivial = true
+	}
 	if fi := need(c, r, "C15.a", cem); fi != nil {
 		// inside the dfs closure, the only value appended is cur.endpoint[method]
 		viol := "collectEndpointsByMethod does not select endpoint[method]"
